@@ -361,6 +361,12 @@ pub fn prop(tier: Tier) -> Prop {
   };
   let mut parts = parts;
   parts.push(Part {
+    name: "chains",
+    body: Box::new(body(Space::chains(), &ALL_KINDS, reduced_opts(true))),
+    modes: vec![Mode::Full],
+    what: "worlds around a redirect chain of 1-3 hops whose middle hops nothing imports directly (head imported statically / dynamically / type-only, a second importer entering at any hop, terminal TypeScript / JavaScript / missing / failing, optional leaf), enumerated completely; graphs built with all three kinds, walked from every root set of <= 2 specifiers (every hop included)",
+  });
+  parts.push(Part {
     name: "wasm-imports",
     body: Box::new(body_wasm),
     modes: vec![Mode::Full],
